@@ -29,8 +29,8 @@ def prechecks(tier):
 
 def plan(tier, seed, drivers=("h5", "ih5")):
     parts = []
-    import vt.harness.cont  # noqa
-    n = len(vt.harness.cont.ACTIONS)
+    import vt.contactions  # noqa
+    n = len(vt.contactions.ACTIONS)
     for drv in drivers:
         k = 3 if (tier != "quick" or drv == "h5") else 2
         for first in range(n):
